@@ -374,8 +374,9 @@ pub fn check_case(ctx: &mut Ctx, case: &Case, cfg: &Cfg, props: &[String], want_
     if has(props, "C02") && wf {
         if let Some(tout) = &tout {
             bump(&mut res, "C02");
-            if let Some(v) = c02(text, &tin, &out, tout, cfg.format_multiline_strings) {
-                res.viols.push(v);
+            let c02v = c02_all(text, &tin, &out, tout, cfg.format_multiline_strings);
+            if !c02v.is_empty() {
+                res.viols.extend(c02v);
             } else if let Some(ids) = case.meta.get("prog").and_then(|pm| pm.get("idents")).and_then(|x| x.as_array()) {
                 // tokens the grammar knows to be identifiers keep their spelling, even when it is that of a contextual keyword
                 let pin: Vec<&Tok> = tin.iter().filter(|t| !t.is_comment() && !t.is_directive() && t.kind != "Eof").collect();
@@ -386,7 +387,13 @@ pub fn check_case(ctx: &mut Ctx, case: &Case, cfg: &Cfg, props: &[String], want_
                         // (the four portability directives are exempt: whether such a word at the end of a declaration is the
                         // directive or a name is a heuristic in pasfmt, and the unchanged tree already lower-cases some names)
                         let portability = |w: &str| matches!(w.to_ascii_lowercase().as_str(), "platform" | "deprecated" | "experimental" | "library");
-                        if o < pin.len() && pin[o].text(text) != pout[o].text(&out) && !portability(pin[o].text(text)) {
+                        // (nor is a name next to a comment: the parser decides by the neighbouring token, and a comment there
+                        // already changes the decision on the unchanged tree for words like `Stored`)
+                        let next_to_comment = |t: &Tok| {
+                            let k = tin.iter().position(|x| x.start == t.start).unwrap_or(0);
+                            (k > 0 && (tin[k - 1].is_comment() || tin[k - 1].is_directive())) || tin.get(k + 1).is_some_and(|x| x.is_comment() || x.is_directive())
+                        };
+                        if o < pin.len() && pin[o].text(text) != pout[o].text(&out) && !portability(pin[o].text(text)) && !next_to_comment(pin[o]) {
                             res.viols.push(Viol { prop: "C02", clause: "identifier_case", detail: format!("identifier {:?} became {:?}: {:?}", pin[o].text(text), pout[o].text(&out), crate::mon::context(&out, pout[o].content_start())) });
                             break;
                         }
@@ -426,7 +433,8 @@ pub fn check_case(ctx: &mut Ctx, case: &Case, cfg: &Cfg, props: &[String], want_
                     if hit { toks.extend(l.tokens.iter().copied()); }
                 }
                 let caret_comment = toks.iter().any(|&t| fin.kinds[t].starts_with("Op(Caret") && fin.kinds.get(t + 1).is_some_and(|k| k.starts_with("Comment(")));
-                reasons.push(if caret_comment { "comment directly after a pointer caret" } else { "unclassified" });
+                let any_comment = toks.iter().any(|&t| fin.kinds[t].starts_with("Comment("));
+                reasons.push(if caret_comment { "comment directly after a pointer caret" } else if any_comment { "a comment placement the wrapper cannot satisfy" } else { "unclassified" });
             }
             reasons.sort();
             reasons.dedup();
